@@ -13,9 +13,9 @@ CLAUSE_PROPS = {
     "BlockingArrivalMax": {"C04", "C13"},   # header fields that exist only in the record: "what a record contains is what that step used"
     "PrevEnd": {"C04", "C13"},   # header fields that exist only in the record: "what a record contains is what that step used"
     "SchedulingDrift": {"C04", "C13"},   # header fields that exist only in the record: "what a record contains is what that step used"
-    "StartTime": {"C04", "C03"},
+    "StartTime": {"C04", "C03", "C13"},
     "CompDelaySupport": {"C04"},
-    "EndTime": {"C04"},
+    "EndTime": {"C04", "C13"},
     "SentHeader": {"C04", "C13"},
     "BlockingGroup": {"C03"},
     "ConsumerStep": {"C03"},
